@@ -63,7 +63,12 @@ def encode_events(events, datatype, widths, byteord):
 OFFW = 10  # fixed width of offsets written in TEXT keywords (zero padded)
 
 
-def off(n):
+def off(n, style=None):
+    """an offset as written in a TEXT keyword: zero padded (default), right-justified with blanks, or followed by blanks -- all of fixed width"""
+    if style == 'blank_left':
+        return ('%' + str(OFFW) + 'd') % n
+    if style == 'blank_right':
+        return ('%-' + str(OFFW) + 'd') % n
     return ('%0' + str(OFFW) + 'd') % n
 
 
@@ -98,7 +103,9 @@ def build(spec):
     else:
         stext = b''
 
-    def text_bytes(lay):
+    _off = off
+
+    def text_bytes(lay, off=lambda n: _off(n, spec.get('offset_style'))):
         pairs = []
         if v3:
             pairs += [('$BEGINANALYSIS', off(lay['ab'] if aplacement == 'text' or True else 0)),
